@@ -2,6 +2,11 @@
 package main
 
 import (
+	"fmt"
+	"go/token"
+	"sort"
+	"strings"
+
 	"k8s.io/gengo/generator"
 	"k8s.io/gengo/types"
 )
@@ -103,6 +108,7 @@ func c07case(g *Gen, local string, ops []string, cls []string) {
 
 func c07(g *Gen) {
 	validateUnicodeTables()
+	defer c07options(g)
 	// exhaustive: all sequences of length <= 3 over a 12-path alphabet, two output packages
 	for _, local := range []string{"", "local/out"} {
 		for _, a := range c07Small {
@@ -134,5 +140,109 @@ func c07(g *Gen) {
 			ops[j] = g.Pick(c07Cluster)
 		}
 		c07case(g, local, ops, []string{"numbered-vs-local-leaf"})
+	}
+}
+
+// c07options: the tracker's other entry points and options -- symbols whose types.Name carries a Path
+// different from its Package (the key is the Path, the alias is made from the Package), types added
+// through AddType on a tracker whose IsInvalidType rejects some of them (their package name is reserved,
+// nothing is imported) -- mixed with ordinary symbols.  The clauses of C07 are asserted after every step.
+func c07options(g *Gen) {
+	n := g.N(300, 6000)
+	for i := 0; i < n; i++ {
+		local := g.Pick(c07Locals)
+		tr := generator.NewImportTrackerForPackage(local)
+		tr.IsInvalidType = func(t *types.Type) bool { return t.Name.Name == "Invalid" }
+		first := map[string]string{} // key -> alias when first seen
+		var keys []string
+		reserved := map[string]bool{}
+		var vendored [][2]string
+		var problems, desc []string
+		cls := map[string]bool{"tracker-options": true}
+		for step, k := 0, 3+g.R.Intn(8); step < k && len(problems) == 0; step++ {
+			pkg := g.Pick(c07Paths)
+			key := pkg
+			switch g.R.Intn(5) {
+			case 0: // a vendored copy: same Package, another Path (often one that was added before)
+				key = g.Pick([]string{"vendor/", "example.com/vendor/", "third_party/"}) + pkg
+				if len(vendored) > 0 && g.Chance(0.5) {
+					v := vendored[g.R.Intn(len(vendored))]
+					pkg, key = v[0], v[1]
+					cls["name-with-path-again"] = true
+				}
+				vendored = append(vendored, [2]string{pkg, key})
+				tr.AddSymbol(types.Name{Package: pkg, Path: key, Name: "T"})
+				desc = append(desc, "sym "+pkg+" @ "+key)
+				cls["name-with-path"] = true
+			case 1: // an invalid type: reserves its package NAME (as written in Name.Package)
+				leaf := pkg[strings.LastIndex(pkg, "/")+1:]
+				if leaf == "" || leaf == local {
+					continue
+				}
+				tr.AddType(&types.Type{Name: types.Name{Package: leaf, Name: "Invalid"}, Kind: []types.Kind{types.Struct, types.Builtin, types.Alias}[g.R.Intn(3)]})
+				desc = append(desc, "invalid "+leaf)
+				cls["invalid-type"] = true
+				if _, ok := tr.PathOf(leaf); ok {
+					if p, _ := tr.PathOf(leaf); p == "" {
+						reserved[leaf] = true
+					}
+				}
+				continue
+			case 2:
+				tr.AddType(&types.Type{Name: types.Name{Package: pkg, Name: "T"}, Kind: types.Struct})
+				desc = append(desc, "type "+pkg)
+			default:
+				tr.AddSymbol(types.Name{Package: pkg, Name: "T"})
+				desc = append(desc, "sym "+pkg)
+			}
+			if pkg == local || pkg == "" {
+				key = ""
+			}
+			if key != "" {
+				if _, ok := first[key]; !ok {
+					first[key] = tr.LocalNameOf(key)
+					keys = append(keys, key)
+				}
+			}
+			// the clauses
+			seen := map[string]string{}
+			var want []string
+			sorted := append([]string{}, keys...)
+			sort.Strings(sorted)
+			for _, kk := range sorted {
+				a := tr.LocalNameOf(kk)
+				switch {
+				case a == "":
+					problems = append(problems, "no local name for "+kk)
+				case a != first[kk]:
+					problems = append(problems, fmt.Sprintf("the local name of %s changed from %q to %q", kk, first[kk], a))
+				case !token.IsIdentifier(a) || token.IsKeyword(a):
+					problems = append(problems, fmt.Sprintf("local name %q of %s is not a legal non-keyword identifier", a, kk))
+				}
+				if reserved[a] {
+					problems = append(problems, fmt.Sprintf("%s is imported under %q, the name reserved for an invalid type's package", kk, a))
+				}
+				if other, dup := seen[a]; dup {
+					problems = append(problems, fmt.Sprintf("%s and %s share the local name %q", other, kk, a))
+				}
+				seen[a] = kk
+				if pth, ok := tr.PathOf(a); !ok || pth != kk {
+					problems = append(problems, fmt.Sprintf("PathOf(LocalNameOf(%q)) = %q, %v", kk, pth, ok))
+				}
+				want = append(want, a+" \""+kk+"\"")
+			}
+			if got := tr.ImportLines(); strings.Join(got, "\n") != strings.Join(want, "\n") {
+				problems = append(problems, fmt.Sprintf("ImportLines = %q, want %q", got, want))
+			}
+			if tr.LocalNameOf(local) != "" {
+				problems = append(problems, "the output package got a local name")
+			}
+		}
+		var cl []string
+		for c := range cls {
+			cl = append(cl, c)
+		}
+		sort.Strings(cl)
+		g.Emit("C07.options!", list(atom(local), atoms(desc), atom(strings.Join(problems, "; "))), boolS(len(problems) == 0), cl...)
 	}
 }
